@@ -117,6 +117,34 @@ def implements(ref, classes):
     return cs == {ref}
 
 
+def byte_table_width(c, chk, rid='R3.8'):
+    """The DFA all scanner rules are decided on is decoded from an 8-bit table set (flex -Cf -8).  That stands for the scanner
+    the project builds only if that scanner is 8-bit too: the table it indexes with an input byte (the equivalence-class table,
+    or the rows of an uncompressed transition table - `%option full`/`fast`, `-Cf`, `-7`, `%option 7bit` make them 128 wide)
+    has 256 entries.  A 7-bit scanner reads past the row for every byte >= 0x80 and lexes it as something else"""
+    import re as _re
+    chk.rule(rid, 'the scanner generated with the project\'s own flex options is 8-bit: the table indexed by an input byte has 256 entries')
+    g = c.lexer.globals
+    width = None
+    which = None
+    if '@yy_ec' in g:
+        m = _re.match(r'\[(\d+) x i\d+\]$', g['@yy_ec']['ty'])
+        if m:
+            width, which = int(m.group(1)), 'yy_ec'
+    elif '@yy_nxt' in g:
+        m = _re.match(r'\[(\d+) x \[(\d+) x i\d+\]\]$', g['@yy_nxt']['ty'])
+        if m:
+            width, which = int(m.group(2)), 'yy_nxt rows'
+    if width is None:
+        raise sym.AnalysisIncomplete('no byte-indexed scanner table (yy_ec / two-dimensional yy_nxt) found in the generated scanner')
+    if width >= 256:
+        chk.ok(rid, '%s of the generated scanner' % which, '%d entries: one per byte value' % width)
+    else:
+        chk.fail(rid, 'scanner-7bit', 'src/lexer.l:1', 'the scanner the project generates is a 7-bit scanner: %s has %d entries, so every input byte >= 0x80 (UTF-8, Latin-1) '
+                 'indexes past its row and is lexed as some unrelated character class; the decoding of strings, escapes and comments holds for ASCII input only '
+                 '(look for `%%option full`, `fast`, `7bit` in lexer.l or -Cf/-CF/-7 in the flex flags without `8bit`)' % (which, width))
+
+
 def run(c, chk):
     chk.explanation = EXPLANATION
     chk.rule('R3.1', 'double-quoted strings: winning rule, match length and action class equal the reference decoder')
@@ -138,6 +166,9 @@ def run(c, chk):
 
     # ---- R3.7: a copying action appends the matched bytes, not one more ------------------------------------
     copy_counts(c, chk, lex, K)
+
+    # ---- R3.8: the scanner the project builds tells all 256 byte values apart -----------------------------
+    byte_table_width(c, chk)
 
     # ---- R3.6 totality -------------------------------------------------------
     for scname in sorted(dfa.sc, key=lambda n: dfa.sc[n]):
